@@ -252,6 +252,16 @@ pub fn run(data: &[u8], ctx: &mut Ctx) -> Outcome {
                 let r2 = nopanic!(ctx, e.add_assertion_envelope_salted(Envelope::new_assertion(p_text.as_str(), o_val), false), "unsalted", &key);
                 let r2 = tryp!(ctx, r2.map_err(|x| x.to_string()), "unsalted", &key);
                 check!(ctx, r2.to_cbor_data() == plain.to_cbor_data(), "unsalted", &format!("{}/deterministic", key), "add_assertion_envelope_salted(.., false) differs from add_assertion");
+                // ... also when the assertion is already there in another form (same digest): nothing is added
+                let a_plain = Envelope::new_assertion(p_text.as_str(), o_val);
+                for (form, present) in [("elided", a_plain.elide()), ("compressed", a_plain.compress().unwrap_or(a_plain.clone())), ("plain", a_plain.clone())] {
+                    let holder = tryp!(ctx, e.add_assertion_envelope(present).map_err(|x| x.to_string()), "unsalted", &key);
+                    let again = nopanic!(ctx, holder.add_assertion_envelope_salted(a_plain.clone(), false), "unsalted", &key);
+                    let again = tryp!(ctx, again.map_err(|x| x.to_string()), "unsalted", &key);
+                    check!(ctx, again.to_cbor_data() == holder.to_cbor_data(), "unsalted", &format!("{}/present-in-other-form", key), "an unsalted add of an assertion the envelope already holds in {} form changed the envelope", form);
+                    let again = nopanic!(ctx, holder.add_assertion_salted(p_text.as_str(), o_val, false), "unsalted", &key);
+                    check!(ctx, again.to_cbor_data() == holder.to_cbor_data(), "unsalted", &format!("{}/present-in-other-form", key), "add_assertion_salted(.., false) of an assertion already held in {} form changed the envelope", form);
+                }
                 produced += 1;
                 if rep >= 2 {
                     break;
